@@ -30,8 +30,9 @@ one history into the next; a worker that observes corrupted process-global state
 stops and the remainder of its chunk is re-run in a fresh fork.
 """
 import sys, os, io, re, ast, json, time, types, pickle, random, warnings, contextlib, itertools
-import tempfile, shutil, dataclasses, multiprocessing, asyncio
+import tempfile, shutil, dataclasses, asyncio, select, signal, traceback
 
+sys.dont_write_bytecode = True  # never leave __pycache__ behind in /verif
 sys.path.insert(0, os.path.dirname(os.path.abspath(__file__)))
 import _common  # noqa: E402
 
@@ -51,6 +52,11 @@ from jaxtyping import _storage  # noqa: E402
 from typeguard import typechecked as tg  # noqa: E402
 from beartype import beartype as bt  # noqa: E402
 import cloudpickle  # noqa: E402
+
+try:  # jaxtyping imports equinox lazily when it formats its first error message; pay for that once, before forking
+    import equinox  # noqa: E402,F401
+except Exception:  # pragma: no cover
+    pass
 
 
 # --------------------------------------------------------------------------------------------
@@ -563,14 +569,14 @@ def _(W):
     return [T(lambda: h(z(5))), T(lambda: h(None, z(5))), T(lambda: h(z(5), z(6)))]
 
 
-@op("pickle-vec", expect=const([True, False, False]),
+@op("pickle-vec", expect=const([True, False, False]), binds=lambda W: {"v" + W.t: 5},
     src='R = pickle.loads(pickle.dumps(Vec)); isinstance(np.zeros(5), R); isinstance(np.zeros(5, int), R); isinstance("str", R)')
 def _(W):
     R = pickle.loads(pickle.dumps(W.Vec))
     return [isinstance(z(5), R), isinstance(zi(5), R), isinstance("str", R)]
 
 
-@op("cloudpickle-vec", expect=const([True, False, False]),
+@op("cloudpickle-vec", expect=const([True, False, False]), binds=lambda W: {"v" + W.t: 5},
     src='R = cloudpickle.loads(cloudpickle.dumps(Vec)); isinstance(np.zeros(5), R); isinstance(np.zeros(5, int), R); isinstance("str", R)')
 def _(W):
     R = cloudpickle.loads(cloudpickle.dumps(W.Vec))
@@ -661,7 +667,9 @@ def fault_ops(ek, E):
         return isinstance(z(7), Float[make_array_type(E), f"a{W.t}"])
 
     @fop("fault-fexpr-inline", """
-# sys.modules["_b12hook"].boom() raises EXC("injected fault")
+import sys, types; hookmod = types.ModuleType("_b12hook"); sys.modules["_b12hook"] = hookmod
+def boom(): raise EXC("injected fault")
+hookmod.boom = boom
 isinstance(np.zeros((7, 9)), Float[np.ndarray, "a {__import__('_b12hook').boom()}"])""")
     def _(W):
         _hook.exc = E
@@ -844,9 +852,10 @@ def F_PRE_BT(x: Float[np.ndarray, "a b"], y: Float[np.ndarray, "b c"]) -> Float[
     return x @ y
 
 
-def probe_table(W, in_context):
+def probe_table(W, in_context, full):
     """list of (name, thunk, expected, src).  `in_context`: the probes run inside the history's own
-    context (ctx / fn placement); otherwise they run where no jaxtyping context is open."""
+    context (ctx / fn placement); otherwise they run where no jaxtyping context is open.
+    `full`: also the (expensive) probes that decorate new functions; used once per history, at the end."""
     t = W.t
     AB = Float[np.ndarray, f"a{t} b{t}"]
     A = Float[np.ndarray, f"a{t}"]
@@ -882,9 +891,12 @@ def probe_table(W, in_context):
         return [T(lambda: hv(z(5))), T(lambda: hv("str")), T(lambda: hv(zi(5)))]
 
     def calls(f):
-        return [T(lambda: f(z(2, 3), z(3, 4)).shape), T(lambda: f(z(2, 3), z(4, 3))), T(lambda: f(zi(2, 3), zi(3, 4)))]
+        return [T(lambda: f(z(2, 3), z(3, 4)).shape), T(lambda: f(z(2, 3), z(4, 3)))]
 
-    call_exp = [[2, 4], "!TypeCheckError", "!TypeCheckError"]
+    def calls3(f):
+        return calls(f) + [T(lambda: f(zi(2, 3), zi(3, 4)))]
+
+    call_exp = [[2, 4], "!TypeCheckError"]
     P = [
         ("arr-accept", lambda: isinstance(z(2, 3), AB), True, 'isinstance(np.zeros((2, 3)), Float[np.ndarray, "a b"])  # must be True'),
         ("arr-reject-dtype", lambda: isinstance(zi(2), A), False, 'isinstance(np.zeros(2, int), Float[np.ndarray, "a"])  # must be False'),
@@ -903,13 +915,22 @@ def probe_table(W, in_context):
         ("pytree-qmark", (qmark if in_context else qmark_fresh), [True, True, False, False],
          'PT = PyTree[Float[np.ndarray, "?n"], "T"]  # in a context; must be True, True, False, False\n'
          "isinstance((np.zeros(3), np.zeros(5)), PT), isinstance((np.zeros(3), np.zeros(5)), PT), isinstance((np.zeros(5), np.zeros(3)), PT), isinstance([np.zeros(3), np.zeros(5)], PT)"),
-        ("call-prebuilt-typeguard", lambda: calls(F_PRE), call_exp, "F(np.zeros((2,3)), np.zeros((3,4))), F(np.zeros((2,3)), np.zeros((4,3))), F(int arrays)  # ok, TypeCheckError, TypeCheckError"),
-        ("call-prebuilt-beartype", lambda: calls(F_PRE_BT), call_exp, "same with beartype"),
-        ("call-new-typeguard", lambda: calls(newf(tg)), call_exp, "same, function decorated after the history"),
-        ("call-new-beartype", lambda: calls(newf(bt)), call_exp, "same, function decorated after the history (beartype)"),
+        ("call-prebuilt-typeguard", lambda: calls(F_PRE), call_exp,
+         '# F: @jaxtyped(typechecker=typechecked) def F(x: Float[np.ndarray,"a b"], y: Float[np.ndarray,"b c"]) -> Float[np.ndarray,"a c"]: return x @ y   (decorated before the history)\n'
+         "F(np.zeros((2, 3)), np.zeros((3, 4))), F(np.zeros((2, 3)), np.zeros((4, 3)))  # ok, TypeCheckError"),
+    ]
+    if not full:
+        return P
+    P += [
+        ("call-prebuilt-beartype", lambda: calls(F_PRE_BT), call_exp, "same as call-prebuilt-typeguard with typechecker=beartype"),
+        ("call-new-typeguard", lambda: calls3(newf(tg)), call_exp + ["!TypeCheckError"], "same, F decorated after the history; third call with int arrays must raise TypeCheckError"),
+    ]
+    if ARGS.tier != "quick" or W.t == "_src":  # (beartype code generation is the most expensive probe: thorough tier only)
+        P.append(("call-new-beartype", lambda: calls(newf(bt)), call_exp, "same, F decorated after the history (beartype)"))
+    P += [
         ("call-bad-return", badret, "!TypeCheckError", 'def f(x: Float[np.ndarray,"a b"]) -> Float[np.ndarray,"b a"]: return x ; f(np.zeros((2,3)))  # must raise'),
         ("vec-decorated-call", vec_call, ["ok", "!TypeCheckError", "!TypeCheckError"],
-         '@jaxtyped(typechecker=typechecked)\ndef hv(x: Vec): return "ok"\nhv(np.zeros(5)), hv("str"), hv(np.zeros(5, int))  # ok, TypeCheckError, TypeCheckError'),
+         '@jaxtyped(typechecker=typeguard.typechecked)\ndef hv(x: Vec): return "ok"\nhv(np.zeros(5)), hv("str"), hv(np.zeros(5, int))  # ok, TypeCheckError, TypeCheckError'),
     ]
     return P
 
@@ -917,10 +938,10 @@ def probe_table(W, in_context):
 PROBE_SRC = {}
 
 
-def run_probes(W, in_context, depth_expected, out, where):
+def run_probes(W, in_context, depth_expected, out, where, full):
     """appends violations to `out`; returns number of comparisons"""
     n = 0
-    for name, thunk, expected, src in probe_table(W, in_context):
+    for name, thunk, expected, src in probe_table(W, in_context, full):
         PROBE_SRC[name] = src
         actual = T(thunk)
         n += 1
@@ -1000,7 +1021,7 @@ def run_history(seq, mode, idx):
             ncmp[0] += 1
             if got != model:
                 viol.append({"clause": "context-bindings@in", "expected": dict(model), "actual": got})
-        ncmp[0] += run_probes(W, mode != "top", 0 if mode == "top" else 1, viol, "in" if mode != "top" else "top")
+        ncmp[0] += run_probes(W, mode != "top", 0 if mode == "top" else 1, viol, "in" if mode != "top" else "top", mode == "top")
 
     def placed():
         if mode == "top":
@@ -1021,7 +1042,7 @@ def run_history(seq, mode, idx):
     if r != "ok":
         viol.append({"clause": "placement-exit", "expected": "ok", "actual": r})
     if mode != "top":
-        ncmp[0] += run_probes(W, False, 0, viol, "after")
+        ncmp[0] += run_probes(W, False, 0, viol, "after", True)
     out = T(lambda: capture_print_bindings().strip())
     ncmp[0] += 1
     if out != "":
@@ -1034,27 +1055,123 @@ def globally_corrupted():
     return obs["flatten-mode"] not in (False, "n/a") or obs["qmark-label"] not in (None, "n/a") or obs["stack-depth"] not in (0, "n/a")
 
 
-def run_chunk(chunk):
-    """worker entry: chunk = list of (idx, seq, mode).  Stops early when process-global state is corrupted."""
+def heal():
+    """best-effort reset of jaxtyping's process-global transient state (only used once corruption is so
+    pervasive that re-forking after every history is pointless)"""
+    for name in ("clear_treepath_memo", "clear_treeflatten_memo"):
+        T(getattr(_storage, name, lambda: None))
+    ss = getattr(_storage, "_shape_storage", None)
+    if ss is not None and hasattr(ss, "memo_stack"):
+        del ss.memo_stack[:]
+
+
+def run_chunk(task):
+    """worker entry: task = (chunk, stop); chunk = list of (idx, seq, mode).  With `stop`, returns early as soon
+    as process-global state is found corrupted after a history (the parent re-runs the rest in a fresh fork)."""
+    chunk, stop = task
     res, done = [], 0
     for idx, seq, mode in chunk:
-        viol, ncmp, fired, rec = run_history(seq, mode, idx)
+        try:
+            viol, ncmp, fired, rec = run_history(seq, mode, idx)
+            suspicious = "RecursionError" in json.dumps(viol, default=repr)
+        except RecursionError:
+            suspicious = True
+        if suspicious and done > 0:
+            # jaxlib's tree_flatten leaks one unit of CPython's C-recursion budget per exception that passes through it,
+            # so a long-lived worker eventually sees spurious RecursionErrors: re-run this history first in a fresh fork
+            break
+        if suspicious and not isinstance(locals().get("viol"), list):
+            viol, ncmp, fired, rec = [{"clause": "placement-exit", "expected": "ok", "actual": "!RecursionError"}], 1, True, {"ops": []}
         res.append((idx, viol, ncmp, fired, rec if idx % 997 == 0 else None))
         done += 1
         if globally_corrupted():
-            break
+            if stop:
+                break
+            heal()
     return res, done
+
+
+CHILDREN = set()
+
+
+def _terminate(*_a):
+    for pid in list(CHILDREN):
+        try:
+            os.kill(pid, signal.SIGKILL)
+        except OSError:
+            pass
+    sys.exit(1)
+
+
+def fork_map(tasks, nproc, deadline=420.0):
+    """run_chunk(task) for every task, each in its own forked child (at most `nproc` at a time).
+    Returns a list of results; None where the child died without delivering one."""
+    results = [None] * len(tasks)
+    todo = list(range(len(tasks)))[::-1]
+    running = {}
+    while todo or running:
+        while todo and len(running) < nproc:
+            i = todo.pop()
+            r, w = os.pipe()
+            sys.stdout.flush()
+            pid = os.fork()
+            if pid == 0:
+                code = 0
+                try:
+                    signal.signal(signal.SIGTERM, signal.SIG_DFL)
+                    os.close(r)
+                    data = pickle.dumps(run_chunk(tasks[i]))
+                    with os.fdopen(w, "wb") as fh:
+                        fh.write(data)
+                except BaseException:  # noqa: BLE001
+                    code = 3
+                    try:
+                        traceback.print_exc()
+                    except BaseException:  # noqa: BLE001
+                        pass
+                finally:
+                    os._exit(code)
+            os.close(w)
+            CHILDREN.add(pid)
+            running[r] = [pid, i, [], time.time()]
+        ready, _, _ = select.select(list(running), [], [], 5.0)
+        for fd in ready:
+            data = os.read(fd, 1 << 20)
+            if data:
+                running[fd][2].append(data)
+                continue
+            pid, i, buf, _t = running.pop(fd)
+            os.close(fd)
+            os.waitpid(pid, 0)
+            CHILDREN.discard(pid)
+            try:
+                results[i] = pickle.loads(b"".join(buf))
+            except Exception:
+                results[i] = None
+        for fd, (pid, i, buf, t_start) in list(running.items()):
+            if time.time() - t_start > deadline:
+                try:
+                    os.kill(pid, signal.SIGKILL)
+                except OSError:
+                    pass
+    return results
 
 
 # --------------------------------------------------------------------------------------------
 # enumeration
 # --------------------------------------------------------------------------------------------
+THOROUGH_ONLY = re.compile(r"^(fault-shape@2|fault-dtype@3|fault-leaf-instancecheck@2|fault-fn-new-beartype|deco-old-gen-optional|"
+                           r"cloudpickle-vec|deco-new-beartype|arr-pass-duck)(\[\w+\])?$")
+
+
 def catalogue(tier):
     classes = ("exc", "kbi") if tier == "quick" else ("exc", "kbi", "base")
     keep = []
     for i, o in enumerate(OPS):
         if o.is_fault and not any("fault-" + c in o.tags for c in classes):
             continue
+        if tier == "quick" and THOROUGH_ONLY.match(o.name):
+            continue  # near-duplicates of other catalogue entries; kept for the thorough tier
         keep.append(i)
     return keep
 
@@ -1075,7 +1192,7 @@ def enumerate_histories(tier, seed):
     info = {}
     if tier == "quick":
         seqs += [(i, j) for i in cat for j in cat]
-        modes_for = lambda s: MODES if len(s) == 1 else ("top", "ctx")  # noqa: E731
+        modes_for = lambda s: MODES if len(s) == 1 else ("ctx",)  # noqa: E731
         info["triples"] = 0
     else:
         seqs += [(i, j) for i in cat for j in cat]
@@ -1086,7 +1203,7 @@ def enumerate_histories(tier, seed):
         while len(triples) < len(core) ** 3 + n_rand:
             triples.add((rng.choice(cat), rng.choice(cat), rng.choice(cat)))
         seqs += sorted(triples)
-        modes_for = lambda s: MODES if len(s) <= 2 else ("top", "ctx")  # noqa: E731
+        modes_for = lambda s: MODES if len(s) == 1 else (("top", "ctx") if len(s) == 2 else ("ctx",))  # noqa: E731
         info["triples"] = len(triples)
         info["core"] = len(core)
     work = []
@@ -1094,6 +1211,7 @@ def enumerate_histories(tier, seed):
         for m in modes_for(s):
             work.append((len(work), s, m))
     info["catalogue"] = len(cat)
+    info["plain"] = sum(1 for i in cat if not OPS[i].is_fault)
     return work, info
 
 
@@ -1114,10 +1232,27 @@ def classify(seq, mode, clauses):
     return "C12:history:"
 
 
+PROBE_ORDER = []
+
+
+def clause_rank(c):
+    m = re.match(r"^probe:([a-z0-9-]+)@(in|after|top)$", c)
+    if m:
+        return (0, PROBE_ORDER.index(m.group(1)) if m.group(1) in PROBE_ORDER else 99, c)
+    if c.startswith("context-bindings"):
+        return (1, 0, c)
+    if c.startswith("state:"):
+        return (2, 0, c)
+    return (3, 0, c)
+
+
 def snippet_for(seq, mode, clauses, repo):
     names = "+".join(OPS[i].name for i in seq)
+    clauses = sorted(clauses, key=clause_rank)
     lines = [f"# replay: PYTHONPATH={repo}:/verif /venv/bin/python /verif/bounded/b12_histories.py --repo {repo} --replay '{mode}:{names}'",
-             "# (helper classes Duck, DuckDtype, BombNode, LeafT, ... are defined in b12_histories.py); Vec = Float[np.ndarray, 'v']"]
+             "# (helper classes Duck, DuckDtype, BombNode, LeafT, PropBomb, ... are the ones defined in b12_histories.py)",
+             "import numpy as np, typeguard, beartype, pickle, cloudpickle, dataclasses, asyncio; from typing import *",
+             "from jaxtyping import Float, PyTree, jaxtyped, print_bindings, install_import_hook; Vec = Float[np.ndarray, 'v']"]
     ind = ""
     if mode == "ctx":
         lines.append('with jaxtyped("context"):')
@@ -1131,23 +1266,30 @@ def snippet_for(seq, mode, clauses, repo):
         for ln in OPS[i].src.splitlines():
             lines.append(f"{ind}    {ln}")
         lines.append(f"{ind}except BaseException: pass")
-    shown = 0
+    inner, outer = [], []
+    shown = set()
     for c in clauses:
-        m = re.match(r"^probe:([a-z-]+)@(in|after|top)$", c)
-        if m and shown < 2:
-            shown += 1
-            cind = ind if m.group(2) == "in" else ""
-            lines.append(f"{cind}# probe {c}")
-            for ln in PROBE_SRC.get(m.group(1), "").splitlines():
-                lines.append(f"{cind}{ln}")
-        elif c.startswith("context-bindings") and shown < 2:
-            shown += 1
-            lines.append(f"{ind}print_bindings()   # must list only bindings made by checks that PASSED in this context")
-        elif c.startswith("state:") and shown < 2:
-            shown += 1
-            lines.append("# " + c + ": jaxtyping._storage.get_treeflatten_memo() / _treepath_storage.value / _shape_storage.memo_stack / Vec._skip_instancecheck")
+        m = re.match(r"^probe:([a-z0-9-]+)@(in|after|top)$", c)
+        if m and len(shown) < 2 and m.group(1) not in shown:
+            shown.add(m.group(1))
+            tgt, cind = (inner, ind) if m.group(2) == "in" else (outer, "")
+            tgt.append(f"{cind}# probe {c}")
+            src = PROBE_SRC.get(m.group(1), "").splitlines()
+            for k, ln in enumerate(src):
+                if k == len(src) - 1 and not ln.lstrip().startswith(("#", "def ", "@")):
+                    code, _, comment = ln.partition("  #")
+                    ln = f"print({code})" + (f"  #{comment}" if comment else "")
+                tgt.append(f"{cind}{ln}")
+        elif c.startswith("context-bindings") and "bindings" not in shown:
+            shown.add("bindings")
+            inner.append(f"{ind}print_bindings()   # must list only bindings made by checks that PASSED in this context")
+        elif c.startswith("state:") and "state" not in shown:
+            shown.add("state")
+            outer.append("# " + c + ": see jaxtyping._storage.get_treeflatten_memo() / _treepath_storage.value / _shape_storage.memo_stack / Vec._skip_instancecheck")
+    lines += inner
     if mode == "fn":
         lines.append("body(np.zeros(6))")
+    lines += outer
     return "\n".join(lines)
 
 
@@ -1163,6 +1305,7 @@ def main():
     if "--replay" in sys.argv:
         replay = sys.argv[sys.argv.index("--replay") + 1]
     tmp = tempfile.mkdtemp(prefix="b12_")
+    signal.signal(signal.SIGTERM, _terminate)  # so that the temporary directory is removed even when we are terminated
     HOOK_DIR[0] = tmp
     with open(os.path.join(tmp, "b12hooked_mod.py"), "w") as fh:
         fh.write(HOOK_SRC)
@@ -1181,36 +1324,48 @@ def main():
 
 def run(tmp):
     tier = ARGS.tier
+    for name, _thunk, _exp, src in probe_table(World("_src"), True, True):  # only to collect the probe sources (nothing is checked here)
+        PROBE_SRC[name] = src
+        PROBE_ORDER.append(name)
     work, info = enumerate_histories(tier, ARGS.seed)
     tally = _common.Tally(max_failures=60)
-    ctx = multiprocessing.get_context("fork")
     nproc = 7
     # pristine baseline: the empty history in every placement, in a fresh fork
     base = [(10 ** 9 + k, (), m) for k, m in enumerate(MODES)]
-    chunk_size = 60
-    chunks = [base] + [work[i:i + chunk_size] for i in range(0, len(work), chunk_size)]
+    chunk_size = 100  # short-lived workers (see the note on jaxlib's recursion-budget leak in run_chunk)
+    chunks = [[b] for b in base] + [work[i:i + chunk_size] for i in range(0, len(work), chunk_size)]
     results = {}
     restarts = 0
     comparisons = 0
-    with ctx.Pool(processes=nproc, maxtasksperchild=1) as pool:
-        pending = chunks
-        while pending:
-            nxt = []
-            for chunk, (res, done) in zip(pending, pool.imap(run_chunk, pending)):
-                for idx, viol, ncmp, fired, rec in res:
-                    results[idx] = (viol, fired, rec)
-                    comparisons += ncmp
-                if done < len(chunk):
-                    restarts += 1
-                    nxt.append(chunk[done:])
-            pending = nxt
+    crashed = []
+    pending = chunks
+    while pending:
+        nxt = []
+        stop = restarts <= 40  # pervasive corruption: stop re-forking, heal in place instead
+        for chunk, out in zip(pending, fork_map([(c, stop) for c in pending], nproc)):
+            if out is None:  # the worker died: isolate the culprit by re-running the chunk one history per fork
+                if len(chunk) == 1:
+                    idx, seq, mode = chunk[0]
+                    results[idx] = ([{"clause": "worker-died", "expected": "history completes", "actual": "worker process died or timed out"}], True, None)
+                    crashed.append(idx)
+                else:
+                    nxt += [[c] for c in chunk]
+                continue
+            res, done = out
+            for idx, viol, ncmp, fired, rec in res:
+                results[idx] = (viol, fired, rec)
+                comparisons += ncmp
+            if done < len(chunk):
+                restarts += 1
+                nxt.append(chunk[done:])
+        pending = nxt
 
     # pristine baseline must agree with the documented truth table
     for idx, seq, mode in base:
         viol, fired, rec = results.pop(idx)
         tally.case(("pristine", mode), nontrivial=False)
         if viol:
-            tally.fail(f"C12:pristine-baseline:{mode}", viol[0]["clause"], input=f"empty history, placement {mode}",
+            tally.fail(f"C12:pristine-baseline:{mode}", sorted((v["clause"] for v in viol), key=clause_rank)[0], input=f"empty history, placement {mode}",
                        expected={v["clause"]: v["expected"] for v in viol}, actual={v["clause"]: v["actual"] for v in viol},
                        snippet=snippet_for((), mode, [v["clause"] for v in viol], ARGS.repo))
 
@@ -1235,7 +1390,9 @@ def run(tmp):
         for sub in subsequences(seq):
             sv = vio_sets.get((mode, sub))
             if sv:
-                hit = [c for c in unexplained if c in sv]
+                # same clause already violated by a shorter history; or a downstream effect (changed verdict of a
+                # later catalogue operation / changed context bindings) of a state some shorter history already corrupted
+                hit = [c for c in unexplained if c in sv or c.startswith("op-verdict:") or c.startswith("context-bindings")]
                 if hit:
                     explained_count[(mode, sub)] = explained_count.get((mode, sub), 0) + 1
                 for c in hit:
@@ -1243,7 +1400,7 @@ def run(tmp):
         if unexplained:
             reported.append((mode, seq, unexplained))
     for mode, seq, vs in reported:
-        clauses = sorted(vs)
+        clauses = sorted(vs, key=clause_rank)
         names = "+".join(OPS[i].name for i in seq)
         prefix = classify(seq, mode, clauses)
         tally.fail(f"{prefix}{mode}:{names}", clauses[0],
@@ -1253,16 +1410,16 @@ def run(tmp):
 
     n_hist = len(work)
     if tier == "quick":
-        bound = (f"catalogue of {info['catalogue']} operations ({N_PLAIN} plain + {info['catalogue'] - N_PLAIN} single-fault operations = "
-                 f"{(info['catalogue'] - N_PLAIN) // 2} call-out points x {{Exception subclass, KeyboardInterrupt}}); ALL histories of length 1 in placements top/ctx/fn and "
-                 f"ALL histories of length 2 in placements top/ctx = {n_hist} histories; each followed by 17 probe checks + 4 state observations "
-                 f"(inside the placement and again after leaving it) and print_bindings transcripts")
+        bound = (f"catalogue of {info['catalogue']} operations ({info['plain']} plain + {info['catalogue'] - info['plain']} single-fault operations = "
+                 f"{(info['catalogue'] - info['plain']) // 2} call-out points x {{Exception subclass, KeyboardInterrupt}}); ALL histories of length 1 in placements top/ctx/fn and "
+                 f"ALL histories of length 2 in placement ctx = {n_hist} histories; each followed by 12 probe checks + 4 state observations inside the placement, 16 probe checks "
+                 f"+ 4 state observations after leaving it, and print_bindings transcripts")
     else:
-        bound = (f"catalogue of {info['catalogue']} operations ({N_PLAIN} plain + {info['catalogue'] - N_PLAIN} single-fault operations = "
-                 f"{(info['catalogue'] - N_PLAIN) // 3} call-out points x {{Exception subclass, KeyboardInterrupt, other BaseException subclass}}); ALL histories of length 1 and 2 "
-                 f"in placements top/ctx/fn; length 3: all {info['core']}^3 triples over a core sub-catalogue plus 12000 seeded random triples over the full catalogue "
-                 f"({info['triples']} triples, placements top/ctx) = {n_hist} histories; each followed by 17 probe checks + 4 state observations "
-                 f"(inside the placement and again after leaving it) and print_bindings transcripts")
+        bound = (f"catalogue of {info['catalogue']} operations ({info['plain']} plain + {info['catalogue'] - info['plain']} single-fault operations = "
+                 f"{(info['catalogue'] - info['plain']) // 3} call-out points x {{Exception subclass, KeyboardInterrupt, other BaseException subclass}}); ALL histories of length 1 in placements top/ctx/fn, "
+                 f"ALL histories of length 2 in placements top/ctx; length 3 in placement ctx: all {info['core']}^3 triples over a core sub-catalogue plus 12000 seeded random triples over the "
+                 f"full catalogue ({info['triples']} triples) = {n_hist} histories; each followed by 12 probe checks + 4 state observations inside the placement, 17 probe checks "
+                 f"+ 4 state observations after leaving it, and print_bindings transcripts")
     rule = ("history = sequence of catalogue operations run in one placement (top: no context; ctx: one jaxtyped('context') block; fn: body of one jaxtyped function) with fresh, "
             "uniquely-named annotation objects incl. a shared alias Vec; expected probe verdicts = documented truth table (identical to the empty history), expected context bindings = "
             "union of bindings of the operations that passed; the verdict of a faulted operation itself is not judged (statement silent). A history counts as distinct/non-trivial when "
